@@ -2316,6 +2316,9 @@ def isinstance_(it, v, t):
         return n in ('list', 'Iterable')
     if isinstance(v, SetV):
         return n == 'set'
+    if isinstance(v, SymSeq):
+        # an opaque sequence handed over by the contract stands for a list (of strings / cells)
+        return n in ('list', 'Iterable')
     if isinstance(v, Opaque):
         return n in ([v.kind] + list(v.attrs.get('__kinds__', ())))
     if isinstance(v, (Stream, GenObj)):
